@@ -201,6 +201,9 @@ func (m *vMon) beforeCall() {
 // afterCall runs the per-call oracles.
 func (m *vMon) afterCall(kind int) {
 	vAssert(m.gotLost == m.expLost, "C03/lost-count-differs-from-gaps")
+	if m.inClose {
+		vAssert(m.gotLost == m.expLost, "C19/loss-accounting-at-close")
+	}
 	m.gotLost, m.expLost = 0, 0
 	lv := m.live()
 	if kind == vOpPush {
